@@ -203,7 +203,7 @@ func (e *Engine) discharge(ob *Obligation, idx int) {
 			if r != "unsat" {
 				return false
 			}
-			os.Remove(fq)
+			e.rm(fq)
 		}
 		ob.Status, ob.Solver, ob.Time = "proved", "z3-new/cvc5 (case split on block entry edges)", time.Since(t0).Seconds()
 		ob.Strategy = "split"
@@ -211,7 +211,7 @@ func (e *Engine) discharge(ob *Obligation, idx int) {
 	}
 	if e.hints[baseName(ob.Name)] == "split" && ob.Kind != "canary" {
 		if trySplit() {
-			os.Remove(f1)
+			e.rm(f1)
 			return
 		}
 	}
@@ -236,13 +236,13 @@ func (e *Engine) discharge(ob *Obligation, idx int) {
 		default:
 			ob.Status = "unknown"
 		}
-		os.Remove(f1)
+		e.rm(f1)
 		return
 	}
 	res, out, _ := runSolver(solvers[0], f1, st1)
 	if res == "unsat" {
 		ob.Status, ob.Solver, ob.Time = "proved", "z3-new", time.Since(t0).Seconds()
-		os.Remove(f1)
+		e.rm(f1)
 		return
 	}
 	satBy := ""
@@ -311,9 +311,9 @@ func (e *Engine) discharge(ob *Obligation, idx int) {
 			ob.Output = "solver disagreement: " + satBy + " says sat, " + proved + " says unsat"
 		}
 		ob.Status, ob.Solver = "proved", proved
-		os.Remove(f1)
+		e.rm(f1)
 		if f2 != "" {
-			os.Remove(f2)
+			e.rm(f2)
 		}
 		return
 	}
@@ -405,4 +405,11 @@ func (fc *FnCtx) expandCases(cases []string) []string {
 		cur = next
 	}
 	return cur
+}
+
+// rm removes a query file unless GOVC_KEEP is set (debugging aid: proved queries are kept as well).
+func (e *Engine) rm(f string) {
+	if os.Getenv("GOVC_KEEP") == "" {
+		os.Remove(f)
+	}
 }
